@@ -237,6 +237,27 @@ func runC03(c *eng.Ctx) {
 		// head Truncate at start-up: memory first, WAL only after
 		t := c.Fn("tsdb:Head.Truncate")
 		t.Gate("R4", p.Call("tsdb:Head.truncateMemory"), p.Call("tsdb:Head.truncateWAL"))
+
+		// The WBL segment that truncateOOO later removes up to is cut BEFORE the out-of-order head
+		// chunks are handed to the compaction: whatever is appended after the cut lands in a segment
+		// that survives, whether or not it made it into the compaction (seed C03-b swaps the two).
+		oc := c.Fn("tsdb:NewOOOCompactionHead")
+		cutWBL := p.MethodOn("tsdb:Head.wbl", "NextSegmentSync")
+		oc.Given("head.wbl != nil", true).Dom("R4", cutWBL, p.Call("tsdb:OOOCompactionHead.mmapOOOSeriesChunk"))
+		oc.Gate("R4", cutWBL, p.Store("tsdb:OOOCompactionHead.lastWBLFile"))
+		c.WritersSubset("R4", "tsdb:OOOCompactionHead.lastWBLFile", 1, "tsdb:NewOOOCompactionHead")
+		c.CallersSubset("R4", "tsdb:OOOCompactionHead.mmapOOOSeriesChunk", 1, "tsdb:NewOOOCompactionHead")
+		// what compactOOOHead passes to truncateOOO is that cut point
+		o.ArgDerivesOnlyFrom("R4", p.Call("tsdb:Head.truncateOOO"), 0, "oooHead.LastWBLFile()", p.IsCallTo("tsdb:OOOCompactionHead.LastWBLFile"))
+
+		// Head compaction waits for every appender that may still hold samples below the block's end:
+		// the time an appender registers with the isolation bookkeeping (what WaitForAppendersOverlapping
+		// compares against) is the lowest timestamp it accepts, not the head's max time (seed C03-a).
+		for _, fn := range []string{"tsdb:Head.appender", "tsdb:Head.appenderV2"} {
+			c.Fn(fn).ArgDerivesOnlyFrom("R4", p.Call("tsdb:isolation.newAppendID"), 0, "appendableMinValidTime()", p.IsCallTo("tsdb:Head.appendableMinValidTime"))
+		}
+		cm.Dom("R4", p.Call("tsdb:Head.WaitForAppendersOverlapping"), p.Call("tsdb:DB.compactHead"))
+		c.Fn("tsdb:Head.WaitForAppendersOverlapping").Has("R4", p.Call("tsdb:isolation.lowestAppendTime"), 1)
 	}
 	// ---- R5 delete-after-rename, tmp cleanup before reload ----
 	{
